@@ -114,7 +114,9 @@ def main(argv=None):
     ap.add_argument("--no-selftest", action="store_true")
     a = ap.parse_args(argv)
     prop = a.prop.upper()
-    code, findings, ctx, _ = run_property(prop, a.tier, a.repo, a.evidence)
+    # evidence and finding files describe /repo; a run on a scratch copy (--repo DIR) writes them only where --evidence says
+    write = os.path.abspath(a.repo) == "/repo" or a.evidence is not None
+    code, findings, ctx, _ = run_property(prop, a.tier, a.repo, a.evidence, write=write)
     if a.explain:
         import json
         want = json.load(open(a.explain))
